@@ -17,6 +17,8 @@ pub mod c16;
 pub mod c17;
 pub mod c18;
 pub mod c19;
+#[cfg(not(miri))]
+pub mod c20;
 
 pub fn run(a: &Args, rep: &mut Report) -> bool {
     match a.prop.to_lowercase().as_str() {
@@ -39,6 +41,8 @@ pub fn run(a: &Args, rep: &mut Report) -> bool {
         "c17" => c17::run(a, rep),
         "c18" => c18::run(a, rep),
         "c19" => c19::run(a, rep),
+        #[cfg(not(miri))]
+        "c20" => c20::run(a, rep),
         _ => return false,
     }
     true
